@@ -105,7 +105,7 @@ class assert_not_equal(RuntimeAssertionFeedback):
 
     def condition(self, left, right, exact_strings, delta):
         """ Tests if the left and right are not equal """
-        return equality_test(left.value, right.value, exact_strings, delta)
+        return errors(left, right) or equality_test(left.value, right.value, exact_strings, delta)
 
 
 class assert_less(RuntimeAssertionFeedback):
@@ -201,7 +201,7 @@ class assert_not_in(RuntimeAssertionFeedback):
 
     def condition(self, needle, haystack):
         """ Tests if the needle is in the haystack """
-        return unwrap_value(needle.value) in haystack.value
+        return errors(needle, haystack) or unwrap_value(needle.value) in haystack.value
 
 
 class assert_contains_subset(RuntimeAssertionFeedback):
@@ -217,7 +217,7 @@ class assert_contains_subset(RuntimeAssertionFeedback):
 
     def condition(self, needles, haystack):
         """ Tests if the needle is not in the haystack """
-        return not all(needle in haystack.value for needle in needles.value)
+        return errors(needles, haystack) or not all(needle in haystack.value for needle in needles.value)
 
 
 class assert_not_contains_subset(RuntimeAssertionFeedback):
@@ -233,7 +233,7 @@ class assert_not_contains_subset(RuntimeAssertionFeedback):
 
     def condition(self, needles, haystack):
         """ Tests if the needle is not in the haystack """
-        return all(needle in haystack.value for needle in needles.value)
+        return errors(needles, haystack) or all(needle in haystack.value for needle in needles.value)
 
 
 class assert_is(RuntimeAssertionFeedback):
@@ -268,6 +268,8 @@ class assert_is_not(RuntimeAssertionFeedback):
     def condition(self, left, right):
         """ Tests if the left and right are equal """
         left = left.value._actual_value if left.is_sandboxed else left.value
+        if errors(left, right):
+            return True
         right = right.value._actual_value if right.is_sandboxed else right.value
         return left is right
 
@@ -303,6 +305,8 @@ class assert_is_not_none(RuntimeAssertionFeedback):
 
     def condition(self, left, right):
         """ Tests if the left and right are equal """
+        if errors(left):
+            return True
         if left.is_sandboxed:
             return left.value._actual_value is None
         return left.value is None
@@ -353,7 +357,7 @@ class assert_true(RuntimeAssertionFeedback):
 
     def condition(self, left, right):
         """ Tests if the left evaluates to true """
-        return not bool(left.value)
+        return errors(left) or not bool(left.value)
 
 
 class assert_false(RuntimeAssertionFeedback):
@@ -401,7 +405,7 @@ class assert_length_not_equal(RuntimeAssertionFeedback):
 
     def condition(self, sequence, length):
         """ Tests if the needle is not in the haystack """
-        return len(sequence.value) == length.value
+        return errors(sequence, length) or len(sequence.value) == length.value
 
 
 class assert_length_less(RuntimeAssertionFeedback):
@@ -505,7 +509,7 @@ class assert_not_is_instance(RuntimeAssertionFeedback):
         value = cls.value
         if value == int or value == float:
             value = (int, float)
-        return isinstance(obj.value, value)
+        return errors(obj) or isinstance(obj.value, value)
 
 
 def type_to_pedal_type(expected_type):
@@ -584,7 +588,7 @@ class assert_regex(RuntimeAssertionFeedback):
 
     def condition(self, regex, text):
         """ Tests if the regex matches the text """
-        return re.search(unwrap_value(regex.value), str(text.value)) is None
+        return errors(regex, text) or re.search(unwrap_value(regex.value), str(text.value)) is None
 
 
 class assert_not_regex(RuntimeAssertionFeedback):
@@ -600,7 +604,7 @@ class assert_not_regex(RuntimeAssertionFeedback):
 
     def condition(self, regex, text):
         """ Tests if the regex does not match the text """
-        return re.search(unwrap_value(regex.value), str(text.value)) is not None
+        return errors(regex, text) or re.search(unwrap_value(regex.value), str(text.value)) is not None
 
 
 class assert_almost_equal(assert_equal):
